@@ -81,7 +81,8 @@ def main():
             sh("git -C /repo worktree remove --force %s" % wt)
             sh("git -C %s checkout -- evidence/%s.json" % (VERIF, pid))
             # tables were regenerated from the changed tree: regenerate them from /repo
-            sh("cd %s && PYTHONHASHSEED=0 PYTHONPATH=%s /venv/bin/python -B -m tools.gen_tables" % (VERIF, VERIF))
+            sh("cd %s && PYTHONHASHSEED=0 PYTHONPATH=%s /venv/bin/python -B -c \"from tools import gen_tables as g; "
+               "[g.generate(m.NAME) for m in g._modules() if m.NAME.startswith('%s')]\"" % (VERIF, VERIF, pid))
             record["mode"] = "scratch worktree of /repo HEAD, check run with SUDS_REPO=<worktree>"
     ok = record.get("demo_unchanged_exit") == 0 and record.get("demo_changed_exit", 0) != 0 and \
         record.get("tests_pass", True)
